@@ -76,6 +76,18 @@ func richTree() fsmodel.Tree {
 	// directories without any execute bit (symbolic X must still treat them as directories)
 	t = append(t, fsmodel.Node{Path: "nx", Kind: fsmodel.Dir, Perm: 0644, Mtime: fsmodel.T0 + 710}, fsmodel.Node{Path: "nx/f", Kind: fsmodel.File, Perm: 0600, Mtime: fsmodel.T0 + 711, Data: []byte("nx")},
 		fsmodel.Node{Path: "d/nx2", Kind: fsmodel.Dir, Perm: 0600, Mtime: fsmodel.T0 + 712})
+	// file capabilities on an inode with several names
+	capx := map[string]string{"security.capability": "\x01\x00\x00\x02\x00\x20\x00\x00\x00\x00\x00\x00\x00\x00\x00\x00\x00\x00\x00\x00"}
+	for _, p := range []string{"capl1", "d/capl2"} {
+		t = append(t, fsmodel.Node{Path: p, Kind: fsmodel.File, Perm: 0755, UID: 5, GID: 6, Mtime: fsmodel.T0 + 721, Data: []byte("capl"), HL: 3, Xattrs: capx})
+	}
+	// three levels for wildcards with several pattern components
+	for i, p := range []string{"w", "w/ax", "w/ax/bx", "w/ax/cc", "w/bx", "w/bx/dd"} {
+		t = append(t, fsmodel.Node{Path: p, Kind: fsmodel.Dir, Perm: 0755, Mtime: fsmodel.T0 + int64(730+i)})
+	}
+	for i, p := range []string{"w/ax/bx/f1", "w/ax/cc/f2", "w/ax/cc/g3", "w/bx/dd/f4", "w/ax/top5"} {
+		t = append(t, fsmodel.Node{Path: p, Kind: fsmodel.File, Perm: 0644, Mtime: fsmodel.T0 + int64(740+i), Data: fsmodel.Content(80+i, 9)})
+	}
 	t = append(t, fsmodel.Node{Path: "lf", Kind: fsmodel.Symlink, Perm: 0777, Mtime: fsmodel.T0 + 700, Link: "v00"},
 		fsmodel.Node{Path: "ld", Kind: fsmodel.Symlink, Perm: 0777, Mtime: fsmodel.T0 + 701, Link: "e"})
 	t.Sort()
@@ -116,6 +128,42 @@ type c13Expect struct {
 
 // expectCopy models where the selection lands for a copy into an empty destination.
 func expectCopy(src fsmodel.Tree, c c13Case) c13Expect {
+	if c.Wild {
+		// a wildcard copy is the union of its matches, each copied on its own into the destination; inode sharing
+		// is judged over the union
+		var ex c13Expect
+		ex.loose = map[string]bool{}
+		pat := strings.Trim(c.Src, "/")
+		seen := map[string]bool{}
+		for _, n := range src {
+			if ok, _ := path.Match(pat, n.Path); !ok {
+				continue
+			}
+			mc := c
+			mc.Wild, mc.Src, mc.DirC = false, n.Path, false
+			one := expectCopyRaw(src, mc)
+			for _, m := range one.tree {
+				if !seen[m.Path] {
+					seen[m.Path] = true
+					ex.tree = append(ex.tree, m)
+				}
+			}
+			for k := range one.loose {
+				ex.loose[k] = true
+			}
+			ex.created = one.created
+		}
+		ex.tree = fixGroups(ex.tree)
+		ex.tree.Sort()
+		return ex
+	}
+	ex := expectCopyRaw(src, c)
+	ex.tree = fixGroups(ex.tree)
+	ex.tree.Sort()
+	return ex
+}
+
+func expectCopyRaw(src fsmodel.Tree, c c13Case) c13Expect {
 	var sel fsmodel.Tree
 	srcRel := strings.Trim(c.Src, "/")
 	if c.Opts.Follow && srcRel != "" {
@@ -188,8 +236,6 @@ func expectCopy(src fsmodel.Tree, c c13Case) c13Expect {
 		}
 		ex.tree = append(ex.tree, m)
 	}
-	ex.tree = fixGroups(ex.tree)
-	ex.tree.Sort()
 	return ex
 }
 
@@ -253,16 +299,7 @@ func judgeC13(c c13Case) (string, string) {
 	if err != nil {
 		return "infra", err.Error()
 	}
-	ec := c
-	if c.Wild {
-		// a wildcard copy into an existing directory is the union of its matches: what a directory-contents copy
-		// of the pattern's directory yields
-		ec.Src, ec.DirC = path.Dir(c.Src), true
-		if ec.Src == "." {
-			ec.Src = "/"
-		}
-	}
-	ex := expectCopy(srcSnap, ec)
+	ex := expectCopy(srcSnap, c)
 	if c.Tree == "xfail" {
 		for i := range ex.tree {
 			for k, v := range ex.tree[i].Xattrs {
@@ -405,7 +442,7 @@ func runC13(r *evid.Run) {
 	}
 	// wildcard sources: hard-link groups reach across matches
 	for _, o := range []c13Opts{{}, {Chown: true, Utime: true}, {Mode: 0640}, {AllowX: true}} {
-		for _, pat := range []string{"*", "?*", "d/*", "[a-z]*"} {
+		for _, pat := range []string{"*", "?*", "d/*", "[a-z]*", "w/?x/*/f?", "w/*/*/*", "w/ax/*/*", "w/*/cc", "*/h?"} {
 			cases = append(cases, c13Case{Tree: "rich", Src: pat, Dst: "/", Opts: o, Wild: true})
 		}
 	}
